@@ -466,6 +466,9 @@ func TestSubscriberStacks(t *testing.T) {
 		k := rapid.IntRange(1, 6).Draw(t, "messages")
 		acks := make([]bool, k)
 		wantA, wantN := 0, 0
+		lateSettle := rapid.IntRange(0, 2).Draw(t, "lastMessageSettledAfterClose") == 0
+		var lateMsg *message.Message
+		var lateDelivery *lib.Delivery
 		for i := 0; i < k; i++ {
 			acks[i] = rapid.Bool().Draw(t, "ack")
 			m := message.NewMessage(fmt.Sprint("m", i), nil)
@@ -486,6 +489,11 @@ func TestSubscriberStacks(t *testing.T) {
 			mu.Unlock()
 			if seen != nTransform {
 				t.Fatalf("violation: transform ran %d times, %d transform decorators installed", seen, nTransform)
+			}
+			if lateSettle && i == k-1 {
+				// received now, settled only after the subscriber was closed (a handler still working during shutdown)
+				lateMsg, lateDelivery = got, d
+				continue
 			}
 			if acks[i] {
 				got.Ack()
@@ -540,11 +548,34 @@ func TestSubscriberStacks(t *testing.T) {
 		case <-time.After(lib.Live):
 			t.Fatalf("violation: output channel not closed after Close")
 		}
-		cls := []string{fmt.Sprintf("sub-depth=%d", n)}
+		if lateMsg != nil {
+			if acks[k-1] {
+				lateMsg.Ack()
+				wantA++
+			} else {
+				lateMsg.Nack()
+				wantN++
+			}
+			if a, ok := lateDelivery.Wait(lib.Live); !ok || a != acks[k-1] {
+				t.Fatalf("violation: settling the received message after Close did not settle the inner subscriber's message")
+			}
+			if nMetrics > 0 {
+				lib.WaitUntil(lib.Live, func() bool {
+					a, n := counterCounts(reg, "subscriber_messages_received_total")
+					return a+n >= wantA+wantN
+				})
+				time.Sleep(3 * time.Millisecond)
+				a, nn := counterCounts(reg, "subscriber_messages_received_total")
+				if a != wantA || nn != wantN {
+					t.Fatalf("violation: subscriber_messages_received_total acked=%d nacked=%d after a message received before Close was settled after it; harness settled %d acked / %d nacked (layers %v)", a, nn, wantA, wantN, layers)
+				}
+			}
+		}
+		cls := []string{fmt.Sprintf("sub-depth=%d", n), fmt.Sprintf("settled-after-close=%v", lateMsg != nil)}
 		if nMetrics >= 2 {
 			cls = append(cls, "sub-metrics-twice")
 		}
-		lib.Case(fmt.Sprintf("sub|%v|%v", layers, acks), n >= 2 || wantN > 0, cls...)
+		lib.Case(fmt.Sprintf("sub|%v|%v|%v", layers, acks, lateSettle), n >= 2 || wantN > 0, cls...)
 		lib.Sample(map[string]any{"test": "SubscriberStacks", "layers": fmt.Sprint(layers), "acks": fmt.Sprint(acks)})
 	})
 }
